@@ -112,14 +112,27 @@ fn gen(seed: u64, tier: Tier) -> Case {
     let target = if r.chance(1, 10) { AddrSpec::Byron(r.below(4) as u16) } else { sess::gen_key_addr(&mut r, 12, 0) };
     let kk = if tier == Tier::Thorough { 8 } else { 3 };
     let mut rh = Rng::stream(seed, 3);
-    Case { knobs: k, world: w, target, offered, hash_seeds: (0..kk).map(|_| rh.next()).collect(), decoded: if rh.chance(1, 3) { 1 + rh.below(250) as u8 } else { 0 } }
+    let mut c = Case { knobs: k, world: w, target, offered, hash_seeds: (0..kk).map(|_| rh.next()).collect(), decoded: if rh.chance(1, 3) { 1 + rh.below(250) as u8 } else { 0 } };
+    if rh.chance(1, 4) {
+        // adaptive: measure the batch once, then put the value-size limit on (or 1-2 bytes below) the size
+        // of the largest value it produced, so that the limit binds exactly where the size model has to be right
+        let mut largest = 0usize;
+        for t in &probe_transactions(&c, c.hash_seeds[0]) {
+            if let Ok(v) = TxView::parse(t) {
+                for o in v.outputs().unwrap_or_default() {
+                    largest = largest.max(o.value_span.1 - o.value_span.0);
+                }
+            }
+        }
+        if largest > 60 {
+            c.knobs.max_value_size = (largest as u64 - rh.below(3)) as u32;
+        }
+    }
+    c
 }
 
-fn run_once(c: &Case, hash_seed: u64, out: &mut Outcome) -> Option<Vec<Vec<(Vec<u8>, u64)>>> {
-    let plan = RngPlan { sampler: Sampler::Uniform, seed: 0, forced: None };
-    let sim = Sim::install(&plan, hash_seed);
+fn offered_list(c: &Case, out: &mut Outcome) -> csl::TransactionUnspentOutputs {
     let w = &c.world;
-    let cfg = exec::config(&c.knobs);
     let mut utxos = csl::TransactionUnspentOutputs::new();
     for i in &c.offered {
         if *i < w.utxos.len() {
@@ -142,6 +155,37 @@ fn run_once(c: &Case, hash_seed: u64, out: &mut Outcome) -> Option<Vec<Vec<(Vec<
             utxos.add(&decoded.unwrap_or(plain));
         }
     }
+    utxos
+}
+
+/// throw-away execution for the adaptive generator: the bytes of the transactions the batch returns
+fn probe_transactions(c: &Case, hash_seed: u64) -> Vec<Vec<u8>> {
+    let plan = RngPlan { sampler: Sampler::Uniform, seed: 0, forced: None };
+    let sim = Sim::install(&plan, hash_seed);
+    let mut scratch = Outcome::default();
+    let utxos = offered_list(c, &mut scratch);
+    let target = c.world.address(&c.target);
+    let cfg = exec::config(&c.knobs);
+    let res = exec::guard(|| csl::create_send_all(&target, &utxos, &cfg));
+    drop(sim);
+    let mut v = vec![];
+    if let Ok(list) = res {
+        for bi in 0..list.len() {
+            let batch = list.get(bi);
+            for ti in 0..batch.len() {
+                v.push(batch.get(ti).to_bytes());
+            }
+        }
+    }
+    v
+}
+
+fn run_once(c: &Case, hash_seed: u64, out: &mut Outcome) -> Option<Vec<Vec<(Vec<u8>, u64)>>> {
+    let plan = RngPlan { sampler: Sampler::Uniform, seed: 0, forced: None };
+    let sim = Sim::install(&plan, hash_seed);
+    let w = &c.world;
+    let cfg = exec::config(&c.knobs);
+    let utxos = offered_list(c, out);
     let target = w.address(&c.target);
     let target_bytes = target.to_bytes();
     let res = exec::guard(|| csl::create_send_all(&target, &utxos, &cfg));
